@@ -16,7 +16,9 @@ SendErr == IsEvent("SendErr") /\ SendErrOk(R.n, R.id, R.code, R.t, st) /\ st' = 
 AppRecv == IsEvent("AppRecv") /\ AppRecvOk(R.n, R.id, R.t, st) /\ st' = AfterAppRecv(R.n, R.id, R.t, st)
 Alloc   == IsEvent("Alloc")   /\ AllocOk(R.v, R.live) /\ UNCHANGED st
 End     == IsEvent("End")     /\ EndOk(st) /\ UNCHANGED st
-Next == Reset \/ AppSend \/ Tx \/ Dlv \/ SendOk \/ SendErr \/ AppRecv \/ Alloc \/ End
+\* events this specification has nothing to say about (e.g. OtherClosed: another peer closed an idle session of a node)
+Other   == i <= Len(Rec) /\ Rec[i].ev \notin {"Reset", "AppSend", "Tx", "Dlv", "SendOk", "SendErr", "AppRecv", "Alloc", "End"} /\ i' = i + 1 /\ UNCHANGED st
+Next == Reset \/ AppSend \/ Tx \/ Dlv \/ SendOk \/ SendErr \/ AppRecv \/ Alloc \/ End \/ Other
 Spec == Init /\ [][Next]_vars
 TraceAccepted ==
   LET d == TLCGet("stats").diameter IN
